@@ -22,13 +22,121 @@ const CHUNK: usize = 8192;
 struct Chunk {
     next: *mut Chunk,
     len: usize,
-    items: [(*mut u8, usize, usize); CHUNK],
+    /// (block, size, align, checksum of its bytes when it was freed)
+    items: [(*mut u8, usize, usize, u64); CHUNK],
+}
+
+/// Memory ranges somebody outside the program (the simulated kernel) may still read or write:
+/// (address, length, tag). Freeing or moving a block that overlaps one is recorded.
+const NWATCH: usize = 1024;
+
+#[derive(Clone, Copy, Debug)]
+pub struct WatchHit {
+    pub watch_addr: usize,
+    pub watch_len: usize,
+    pub tag: u64,
+    pub freed_addr: usize,
+    pub freed_len: usize,
+}
+
+struct Watches {
+    n: usize,
+    w: [(usize, usize, u64); NWATCH],
 }
 
 thread_local! {
     static ACTIVE: Cell<bool> = const { Cell::new(false) };
     static HEAD: Cell<*mut Chunk> = const { Cell::new(ptr::null_mut()) };
     static HELD: Cell<usize> = const { Cell::new(0) };
+    static WATCHES: std::cell::UnsafeCell<Watches> = const { std::cell::UnsafeCell::new(Watches { n: 0, w: [(0, 0, 0); NWATCH] }) };
+    static HIT: Cell<Option<WatchHit>> = const { Cell::new(None) };
+    /// first freed block found modified when the run ended: (address, size)
+    static WRITTEN_AFTER_FREE: Cell<Option<(usize, usize)>> = const { Cell::new(None) };
+}
+
+/// Watch `[addr, addr+len)` under `tag`. No allocation happens here.
+pub fn watch_add(addr: usize, len: usize, tag: u64) {
+    if len == 0 {
+        return;
+    }
+    WATCHES.with(|w| unsafe {
+        let w = &mut *w.get();
+        if w.n < NWATCH {
+            w.w[w.n] = (addr, len, tag);
+            w.n += 1;
+        }
+    });
+}
+
+pub fn watch_remove(tag: u64) {
+    WATCHES.with(|w| unsafe {
+        let w = &mut *w.get();
+        let mut i = 0;
+        while i < w.n {
+            if w.w[i].2 == tag {
+                w.w[i] = w.w[w.n - 1];
+                w.n -= 1;
+            } else {
+                i += 1;
+            }
+        }
+    });
+}
+
+pub fn watch_clear() {
+    WATCHES.with(|w| unsafe { (*w.get()).n = 0 });
+    HIT.with(|h| h.set(None));
+}
+
+/// The first free of watched memory since the last call, if any.
+pub fn take_hit() -> Option<WatchHit> {
+    HIT.with(|h| h.take())
+}
+
+/// A block that was modified after it had been freed during the last run, if any.
+pub fn take_written_after_free() -> Option<(usize, usize)> {
+    WRITTEN_AFTER_FREE.with(|h| h.take())
+}
+
+fn check_watches(p: *mut u8, size: usize) {
+    let (a, b) = (p as usize, p as usize + size);
+    let _ = WATCHES.try_with(|w| unsafe {
+        let w = &*w.get();
+        for i in 0..w.n {
+            let (wa, wl, tag) = w.w[i];
+            if wa < b && a < wa + wl {
+                let _ = HIT.try_with(|h| {
+                    if h.get().is_none() {
+                        h.set(Some(WatchHit { watch_addr: wa, watch_len: wl, tag, freed_addr: a, freed_len: size }));
+                    }
+                });
+                break;
+            }
+        }
+    });
+}
+
+/// Checksum of a freed block (whole block up to 64 KiB, head and tail beyond).
+unsafe fn checksum(p: *const u8, size: usize) -> u64 {
+    let mut h = 0xcbf29ce484222325u64;
+    let mut feed = |from: usize, to: usize| {
+        let mut i = from;
+        while i + 8 <= to {
+            h = (h ^ unsafe { (p.add(i) as *const u64).read_unaligned() }).wrapping_mul(0x100000001b3);
+            i += 8;
+        }
+        while i < to {
+            h = (h ^ unsafe { *p.add(i) } as u64).wrapping_mul(0x100000001b3);
+            i += 1;
+        }
+    };
+    if size <= 65536 {
+        feed(0, size);
+    } else {
+        feed(0, 32768);
+        feed(size - 32768, size);
+    }
+    h
 }
 
 /// Start quarantining frees made on this thread.
@@ -45,7 +153,14 @@ pub fn end() -> usize {
         while !head.is_null() {
             let c = &mut *head;
             for i in 0..c.len {
-                let (p, size, align) = c.items[i];
+                let (p, size, align, sum) = c.items[i];
+                if checksum(p, size) != sum {
+                    WRITTEN_AFTER_FREE.with(|w| {
+                        if w.get().is_none() {
+                            w.set(Some((p as usize, size)));
+                        }
+                    });
+                }
                 System.dealloc(p, Layout::from_size_align_unchecked(size, align));
                 n += 1;
             }
@@ -90,8 +205,9 @@ unsafe impl GlobalAlloc for Quarantine {
                 head = c;
                 HEAD.with(|h| h.set(head));
             }
+            check_watches(p, layout.size());
             let c = &mut *head;
-            c.items[c.len] = (p, layout.size(), layout.align());
+            c.items[c.len] = (p, layout.size(), layout.align(), checksum(p, layout.size()));
             c.len += 1;
         }
         HELD.with(|h| h.set(h.get() + 1));
